@@ -104,6 +104,24 @@ func vC12Op(k int, idx string, check bool) vC12Result {
 		rm := NewRule().Set("k", "required,r1")
 		err = Url("h?k="+v, rm)
 		vRefUrl(r, []string{"k"}, []string{v}, rm)
+	case 9: // a supplied rule set on a call that can pass (nothing required)
+		o := &vT1{A: vStr("A" + idx), B: "b", C: "c"}
+		rm := RM{"A": "r3", "C": "r2"}
+		before := vCopyRM(rm)
+		err = Struct(o, rm)
+		r.unscoped = before
+		r.top(o)
+		vAssert(vSameRM(rm, before), tag+": rule map unmodified")
+	case 10: // a rule set scoped to a nested type on a call that can pass
+		o := &vT2{A: "a", N: vT1{A: vStr("N.A" + idx), B: "b"}}
+		rm := RM{"B": "r3", "A": "r2"}
+		err = NestedStructForRule(o, map[interface{}]RM{&vT1{}: rm})
+		r.scoped = map[reflect.Type]RM{reflect.TypeOf(vT1{}): vCopyRM(rm)}
+		r.top(o)
+	case 11: // rule text with an unbalanced quote (a rule-writing error: only "no crash" is asked of this call itself)
+		s := vStr("q" + idx)
+		err = NewVVar().SetRules([]string{"r1,in='a", "'", "re='x,y", "r1,'',r2'"}[vndChoice("bad"+idx, 4)]).Valid(s)
+		return vC12Keep(err)
 	case 8:
 		err = Struct(5) // fails before any field is looked at
 		r.lit("\"int\" is not struct" + ErrEndFlag)
@@ -119,13 +137,12 @@ func vC12Op(k int, idx string, check bool) vC12Result {
 	return vC12Keep(err)
 }
 
-const vC12NOps = 9
+const vC12NOps = 12
 
-func vC12Pair(mode string) {
+func vC12Pair(mode string, a int) {
 	vPoolMode(mode)
 	vUNoFail = mode == "adversarial"
 	vGlobalRules()
-	a := vndChoice("opA", vC12NOps)
 	b := vndChoice("opB", vC12NOps)
 	toks := ValidNamesSplit("r1,'x,y',r2|msg")
 	toksCopy := []string{}
@@ -140,11 +157,36 @@ func vC12Pair(mode string) {
 	}
 	vAssert(len(toks) == 3 && toks[0] == toksCopy[0] && toks[1] == toksCopy[1] && toks[2] == toksCopy[2], "C12 earlier rule tokens unchanged by later calls")
 	vAssert(len(toks) == 3 && toks[0] == "r1" && toks[1] == "'x,y'" && toks[2] == "r2|msg", "C12 rule tokens keep their text")
+	// and the splitter itself starts afresh: the same text splits the same way after the two calls
+	again := ValidNamesSplit("r1,'x,y',r2|msg")
+	vAssert(len(again) == 3 && again[0] == "r1" && again[1] == "'x,y'" && again[2] == "r2|msg", "C12 the splitter is not affected by the rule texts of earlier calls")
 	vReach("end")
 }
 
-func H_C12_pair_lifo()        { vC12Pair("lifo") }
-func H_C12_pair_adversarial() { vC12Pair("adversarial") }
+func H_C12_pair_lifo_00()        { vC12Pair("lifo", 0) }
+func H_C12_pair_adversarial_00() { vC12Pair("adversarial", 0) }
+func H_C12_pair_lifo_01()        { vC12Pair("lifo", 1) }
+func H_C12_pair_adversarial_01() { vC12Pair("adversarial", 1) }
+func H_C12_pair_lifo_02()        { vC12Pair("lifo", 2) }
+func H_C12_pair_adversarial_02() { vC12Pair("adversarial", 2) }
+func H_C12_pair_lifo_03()        { vC12Pair("lifo", 3) }
+func H_C12_pair_adversarial_03() { vC12Pair("adversarial", 3) }
+func H_C12_pair_lifo_04()        { vC12Pair("lifo", 4) }
+func H_C12_pair_adversarial_04() { vC12Pair("adversarial", 4) }
+func H_C12_pair_lifo_05()        { vC12Pair("lifo", 5) }
+func H_C12_pair_adversarial_05() { vC12Pair("adversarial", 5) }
+func H_C12_pair_lifo_06()        { vC12Pair("lifo", 6) }
+func H_C12_pair_adversarial_06() { vC12Pair("adversarial", 6) }
+func H_C12_pair_lifo_07()        { vC12Pair("lifo", 7) }
+func H_C12_pair_adversarial_07() { vC12Pair("adversarial", 7) }
+func H_C12_pair_lifo_08()        { vC12Pair("lifo", 8) }
+func H_C12_pair_adversarial_08() { vC12Pair("adversarial", 8) }
+func H_C12_pair_lifo_09()        { vC12Pair("lifo", 9) }
+func H_C12_pair_adversarial_09() { vC12Pair("adversarial", 9) }
+func H_C12_pair_lifo_10()        { vC12Pair("lifo", 10) }
+func H_C12_pair_adversarial_10() { vC12Pair("adversarial", 10) }
+func H_C12_pair_lifo_11()        { vC12Pair("lifo", 11) }
+func H_C12_pair_adversarial_11() { vC12Pair("adversarial", 11) }
 
 // three calls: A and B populate pools and cache, C is checked (one harness per first call)
 func vC12Triple(mode string, a int) {
@@ -159,24 +201,30 @@ func vC12Triple(mode string, a int) {
 	vReach("end")
 }
 
-func H_C12T_triple_lifo_0() { vC12Triple("lifo", 0) }
-func H_C12T_triple_lifo_1() { vC12Triple("lifo", 1) }
-func H_C12T_triple_lifo_2() { vC12Triple("lifo", 2) }
-func H_C12T_triple_lifo_3() { vC12Triple("lifo", 3) }
-func H_C12T_triple_lifo_4() { vC12Triple("lifo", 4) }
-func H_C12T_triple_lifo_5() { vC12Triple("lifo", 5) }
-func H_C12T_triple_lifo_6() { vC12Triple("lifo", 6) }
-func H_C12T_triple_lifo_7() { vC12Triple("lifo", 7) }
-func H_C12T_triple_lifo_8() { vC12Triple("lifo", 8) }
-func H_C12T_triple_adv_0()  { vC12Triple("adversarial", 0) }
-func H_C12T_triple_adv_1()  { vC12Triple("adversarial", 1) }
-func H_C12T_triple_adv_2()  { vC12Triple("adversarial", 2) }
-func H_C12T_triple_adv_3()  { vC12Triple("adversarial", 3) }
-func H_C12T_triple_adv_4()  { vC12Triple("adversarial", 4) }
-func H_C12T_triple_adv_5()  { vC12Triple("adversarial", 5) }
-func H_C12T_triple_adv_6()  { vC12Triple("adversarial", 6) }
-func H_C12T_triple_adv_7()  { vC12Triple("adversarial", 7) }
-func H_C12T_triple_adv_8()  { vC12Triple("adversarial", 8) }
+func H_C12T_triple_lifo_0()  { vC12Triple("lifo", 0) }
+func H_C12T_triple_lifo_1()  { vC12Triple("lifo", 1) }
+func H_C12T_triple_lifo_2()  { vC12Triple("lifo", 2) }
+func H_C12T_triple_lifo_3()  { vC12Triple("lifo", 3) }
+func H_C12T_triple_lifo_4()  { vC12Triple("lifo", 4) }
+func H_C12T_triple_lifo_5()  { vC12Triple("lifo", 5) }
+func H_C12T_triple_lifo_6()  { vC12Triple("lifo", 6) }
+func H_C12T_triple_lifo_7()  { vC12Triple("lifo", 7) }
+func H_C12T_triple_lifo_8()  { vC12Triple("lifo", 8) }
+func H_C12T_triple_adv_0()   { vC12Triple("adversarial", 0) }
+func H_C12T_triple_adv_1()   { vC12Triple("adversarial", 1) }
+func H_C12T_triple_adv_2()   { vC12Triple("adversarial", 2) }
+func H_C12T_triple_adv_3()   { vC12Triple("adversarial", 3) }
+func H_C12T_triple_adv_4()   { vC12Triple("adversarial", 4) }
+func H_C12T_triple_adv_5()   { vC12Triple("adversarial", 5) }
+func H_C12T_triple_adv_6()   { vC12Triple("adversarial", 6) }
+func H_C12T_triple_adv_7()   { vC12Triple("adversarial", 7) }
+func H_C12T_triple_adv_8()   { vC12Triple("adversarial", 8) }
+func H_C12T_triple_lifo_9()  { vC12Triple("lifo", 9) }
+func H_C12T_triple_lifo_10() { vC12Triple("lifo", 10) }
+func H_C12T_triple_lifo_11() { vC12Triple("lifo", 11) }
+func H_C12T_triple_adv_9()   { vC12Triple("adversarial", 9) }
+func H_C12T_triple_adv_10()  { vC12Triple("adversarial", 10) }
+func H_C12T_triple_adv_11()  { vC12Triple("adversarial", 11) }
 
 // clause builders use pooled buffers: the text of one call's clauses must not leak into the next
 func H_C12_buffers() {
